@@ -541,6 +541,8 @@ def pack2d(RVARA, verbose=False):
     ROLD = VAR1
     for myJ in range(NY):
         ICVAL = INT((RVAR[myJ, 0] - ROLD) * SCEXP + 127.5)
+        # a difference beyond -127.5 steps must saturate, not wrap to 255
+        ICVAL = np.clip(ICVAL, 0, 255)
         CVAR[myJ, 0] = ICVAL
         ROLD = FLOAT(ICVAL - 127) / SCEXP + ROLD
         ROLDS[myJ] = ROLD
@@ -548,6 +550,7 @@ def pack2d(RVARA, verbose=False):
     ROLD = ROLDS
     for myI in range(1, NX):
         ICVAL = INT((RVAR[:, myI] - ROLD) * SCEXP + 127.5)
+        ICVAL = np.clip(ICVAL, 0, 255)
         CVAR[:, myI] = ICVAL
         ROLD = FLOAT(ICVAL - 127) / SCEXP + ROLD
     KSUM = INT(CVAR.sum()) % 255
